@@ -87,7 +87,7 @@ def run(ctx):
     samples.append({'kind': 'real split_candle call on a real-valued candle', 'case': ev[counts['lattice_cases'] + 3]})
     # (a) scenario families, normal simulator only
     fams = []
-    plan = ctx.pick([(3, 2, 1, 2), (3, 3, 0, 1)], [(4, 3, 1, 2), (3, 2, 2, 2), (5, 3, 0, 1)])
+    plan = ctx.pick([(3, 2, 1, 2), (4, 2, 1, 1), (3, 3, 0, 1)], [(4, 3, 1, 2), (3, 2, 2, 2), (5, 3, 0, 1)])
     for (K, N, R, F) in plan:
         fam = list(mt.step_family(K, N, R, F))
         doc = {'K': K, 'MaxOrders': N, 'MinOrders': 0, 'MaxReact': R, 'MaxF': F, 'ChunkLen': 1}
